@@ -48,13 +48,13 @@ func ruleKeptPackPredicate(c *eng.Ctx) {
 					fromSet := false
 					for _, o := range eng.Origins(eng.Recv(call), nil) {
 						if ld, isLd := o.(*ssa.UnOp); isLd {
-							if fv, isFV := ld.X.(*ssa.FreeVar); isFV && fv.Name() == "removePacksFirst" {
+							if fv, isFV := ld.X.(*ssa.FreeVar); isFV && eng.LogicalName(fv) == "removePacksFirst" {
 								fromSet = true
 							}
 						}
 					}
 					if ld, isLd := eng.Recv(call).(*ssa.UnOp); isLd {
-						if fv, isFV := ld.X.(*ssa.FreeVar); isFV && fv.Name() == "removePacksFirst" {
+						if fv, isFV := ld.X.(*ssa.FreeVar); isFV && eng.LogicalName(fv) == "removePacksFirst" {
 							fromSet = true
 						}
 					}
